@@ -22,3 +22,4 @@ import SpoxModel.Props.C07
 #print axioms C07.feed_roundtrip
 #print axioms C07.feed_roundtrip_tensor
 #print axioms C07.feed_roundtrip_counterexample
+#print axioms C07.converted_value_roundtrips_exactly
